@@ -5,7 +5,12 @@ package tls
 import (
 	"bytes"
 
+	"crypto"
 	vr "github.com/zmap/zcrypto/internal/verifrt"
+	jsonKeys "github.com/zmap/zcrypto/json"
+	"github.com/zmap/zcrypto/rsa"
+	"io"
+	"math/big"
 )
 
 func c24Version(label string) uint16 {
@@ -91,7 +96,7 @@ func c24Suites(label string, max int) []uint16 {
 func VerifH_C24_cipher_suite_selection() {
 	c24SendAlertStub()
 	hasAESGCMHardwareSupport = true // explicit lists; no AES-GCM deprioritisation (stated bound)
-	max := 2 // three suites per side exceed 200000 paths in either tier
+	max := 2                        // three suites per side exceed 200000 paths in either tier
 	client := c24Suites("client", max)
 	server := c24Suites("server", max)
 	if server == nil {
@@ -300,4 +305,70 @@ func VerifH_C24_ecdhe_support() {
 	}
 	vr.Assert(got == (wantCurve && bytes.Contains(points, []byte{0})), "ECDHE usable iff a default curve and the uncompressed point format are offered")
 	vr.Cover("done")
+}
+
+// C24 (TLS <= 1.2 ECDHE): the server's ServerKeyExchange names the first group of the
+// client's list that is usable at this version (the TLS 1.3-only hybrid groups are not)
+// and that the server enables. Key generation, hashing and signing are environment.
+type c24Signer struct{}
+
+func (c24Signer) Public() crypto.PublicKey {
+	return &rsa.PublicKey{N: big.NewInt(35), E: big.NewInt(5)}
+}
+func (c24Signer) Sign(_ io.Reader, digest []byte, _ crypto.SignerOpts) ([]byte, error) {
+	return []byte{1, 2}, nil
+}
+
+type c24Params struct{ id CurveID }
+
+func (p *c24Params) CurveID() CurveID          { return p.id }
+func (p *c24Params) PublicKey() []byte         { return []byte{4, 1, 2} }
+func (p *c24Params) SharedKey(_ []byte) []byte { return []byte{9} }
+func (p *c24Params) Clone() ecdheParameters    { return p }
+func (p *c24Params) MakeLog() (*jsonKeys.ECPoint, *jsonKeys.ECDHPrivateParams) {
+	return nil, nil
+}
+
+// verif: covers=chosen,none
+func VerifH_C24_server_curve_choice() {
+	vr.Stub("github.com/zmap/zcrypto/tls.generateECDHEParameters", func(r io.Reader, id CurveID) (ecdheParameters, error) {
+		return &c24Params{id: id}, nil
+	})
+	vr.Stub("github.com/zmap/zcrypto/tls.hashForServerKeyExchange", func(sigType uint8, h crypto.Hash, version uint16, slices ...[]byte) []byte {
+		return []byte{0x5a}
+	})
+	pool := []CurveID{X25519MLKEM768, X25519, CurveP256, CurveP384, SecP256r1MLKEM768, CurveID(0x9999)}
+	var offered []CurveID
+	for i, n := 0, vr.Int("offered#", 0, 3); i < n; i++ {
+		offered = append(offered, pool[vr.Pick(vr.Int("offered", 0, len(pool)-1))])
+	}
+	var enabled []CurveID
+	for _, c := range []CurveID{X25519, CurveP256, CurveP384} {
+		if vr.Bool("serverEnables") {
+			enabled = append(enabled, c)
+		}
+	}
+	vr.Assume(len(enabled) > 0)
+	cfg := &Config{CurvePreferences: enabled}
+	ka := &ecdheKeyAgreement{auth: &signedKeyAgreement{version: VersionTLS10, sigType: signatureRSA}, version: VersionTLS10, isRSA: true}
+	hello := &clientHelloMsg{random: make([]byte, 32), supportedCurves: offered}
+	skx, err := ka.generateServerKeyExchange(cfg, &Certificate{PrivateKey: c24Signer{}}, hello, &serverHelloMsg{random: make([]byte, 32)})
+	want := CurveID(0)
+	for _, c := range offered {
+		classic := c == X25519 || c == CurveP256 || c == CurveP384
+		on := false
+		for _, e := range enabled {
+			on = on || e == c
+		}
+		if want == 0 && classic && on {
+			want = c
+		}
+	}
+	if want == 0 {
+		vr.Assert(err != nil, "no mutually usable group: the key exchange is refused")
+		vr.Cover("none")
+		return
+	}
+	vr.Assert(err == nil && skx != nil && len(skx.key) >= 4 && CurveID(skx.key[1])<<8|CurveID(skx.key[2]) == want, "the first mutually usable group of the client's list is chosen")
+	vr.Cover("chosen")
 }
